@@ -507,8 +507,10 @@ class JaqalParser(Parser):
             col = self.compute_col(token.index)
             msg = f"At token `{token.value}`"
         else:
-            line = "EOF"
-            col = 0
+            # The input ended too early: report the position of its end
+            text = self._source_text or ""
+            line = text.count("\n") + 1
+            col = len(text) - (text.rfind("\n") + 1) + 1
             msg = "Unexpected end of input"
         raise JaqalParseError(self._source, line, col, msg)
 
